@@ -27,7 +27,7 @@ def tla_set(xs):
     return "{" + ", ".join(json.dumps(x) if isinstance(x, str) else str(x) for x in xs) + "}"
 
 
-def gen_cfg(steps=(2,), leads=(0,), tbs=(0,), ginds=(0,), rsteps=(0,), edits=1, acts=("scalar",), focus=("expr",), sim=False, clean=False, gi0=0, rs0=0, var=0, replay="", seps=("sp",), props=("",), crlf0=False, core=False):
+def gen_cfg(steps=(2,), leads=(0,), tbs=(0,), ginds=(0,), rsteps=(0,), edits=1, acts=("scalar",), focus=("expr",), sim=False, clean=False, gi0=0, rs0=0, var=0, replay="", seps=("sp",), props=("",), crlf0=False, core=False, wrap0=0):
     return """SPECIFICATION Spec
 CONSTANTS
   Steps = %s
@@ -41,6 +41,7 @@ CONSTANTS
   RS0 = %d
   CRLF0 = %s
   Core = %s
+  Wrap0 = %d
   BaseVar = %d
   MaxEdits = %d
   Acts = %s
@@ -50,7 +51,7 @@ CONSTANTS
   ReplayFile = "%s"
 INVARIANTS Inv_Consistent
 CHECK_DEADLOCK FALSE
-""" % (tla_set(steps), tla_set(leads), tla_set(tbs), tla_set(seps), tla_set(props), tla_set(ginds), tla_set(rsteps), gi0, rs0, "TRUE" if crlf0 else "FALSE", "TRUE" if core else "FALSE", var, edits, tla_set(acts),
+""" % (tla_set(steps), tla_set(leads), tla_set(tbs), tla_set(seps), tla_set(props), tla_set(ginds), tla_set(rsteps), gi0, rs0, "TRUE" if crlf0 else "FALSE", "TRUE" if core else "FALSE", wrap0, var, edits, tla_set(acts),
        tla_set(focus), "TRUE" if sim else "FALSE", "TRUE" if clean else "FALSE", replay)
 
 
@@ -80,13 +81,13 @@ def build_vh_overlay(ctx):
     return out
 
 
-def run_gen(ctx, jobs, par=6):
+def run_gen(ctx, jobs, par=3):
     """jobs: list of dict(tag, cfg, simulate, depth, seed). Returns (cases, stats)."""
     ctx._spec_copy()
 
     def one(j):
         name = "layout_%s.cfg" % j["tag"]
-        return j, ctx.tlc("LayoutGen", name, files={name: j["cfg"]}, workers=j.get("workers", 1), simulate=j.get("simulate"),
+        return j, ctx.tlc("LayoutGen", name, files={name: j["cfg"]}, workers=j.get("workers", 1 if j.get("simulate") else 4), simulate=j.get("simulate"),
                           depth=j.get("depth"), seed=j.get("seed"), timeout=3000, heap="2g", tag=j["tag"])
     cases, seen, stats = [], set(), []
     with cf.ThreadPoolExecutor(max_workers=par) as ex:
@@ -138,7 +139,7 @@ def run_judge(ctx, module, trace_path, prefix, slices=8):
             raise MachineryError("JUDGE slice %d consumed %s of %d trace records" % (k, done, cnt))
         return res
     out = {"VIOL": [], "DRIFT": [], "UNEXP": []}
-    with cf.ThreadPoolExecutor(max_workers=6) as ex:
+    with cf.ThreadPoolExecutor(max_workers=3) as ex:
         for res in ex.map(one, jobs):
             for t in out:
                 out[t] += prints(res, t)
@@ -178,6 +179,9 @@ def jobs_for(ctx):
         jobs.append(dict(tag="x-tabsep", cfg=gen_cfg(focus=("expr",), steps=(2,), leads=(0,), tbs=(0,), seps=("tab",))))
         jobs.append(dict(tag="x-props", cfg=gen_cfg(focus=("expr", "alert"), steps=(2,), leads=(0,), tbs=(0,), props=("tag", "anc"))))
         jobs.append(dict(tag="x-crlf", cfg=gen_cfg(focus=("expr",), steps=(2,), leads=(0,), tbs=(0, 1), crlf0=True)))
+        # phase 3: every single wrapper edit around a document that is already embedded under two parent keys
+        # (embedding depth 2, empty documents in front, ...)
+        jobs.append(dict(tag="x-embed2", cfg=gen_cfg(edits=1, acts=("wrap",), focus=ALL_FOCUS, wrap0=1)))
         # the same with `for` / `expr` (variant 1) and `keep_firing_for` (variant 2) as the LAST key of their rule
         jobs.append(dict(tag="x-last1", cfg=gen_cfg(focus=("for", "expr"), steps=(2,), leads=(0,), tbs=(0,), var=1)))
         jobs.append(dict(tag="x-last2", cfg=gen_cfg(focus=("keep_firing_for",), steps=(2,), leads=(0,), tbs=(0,), var=2)))
@@ -197,6 +201,7 @@ def jobs_for(ctx):
         jobs.append(dict(tag="x-small", cfg=gen_cfg(focus=("record", "for", "labels.k", "annotations.k"), **full)))
         jobs.append(dict(tag="x-last1", cfg=gen_cfg(focus=("for", "expr"), var=1, **full)))
         jobs.append(dict(tag="x-last2", cfg=gen_cfg(focus=("keep_firing_for",), var=2, **full)))
+        jobs.append(dict(tag="x-embed2", cfg=gen_cfg(edits=2, acts=("wrap",), focus=ALL_FOCUS, wrap0=1), workers=2))
         jobs.append(dict(tag="x-tabsep", cfg=gen_cfg(focus=("expr", "alert", "annotations.v", "labels.v"), seps=("tab",), **full)))
         jobs.append(dict(tag="x-props-expr", cfg=gen_cfg(focus=("expr",), props=("tag", "anc"), **full)))
         jobs.append(dict(tag="x-props-text", cfg=gen_cfg(focus=("alert", "annotations.v"), steps=(2, 4), leads=(0,), tbs=(0, 1), props=("tag", "anc"))))
@@ -217,13 +222,13 @@ def jobs_for(ctx):
 def c06_usable(c):
     # C06 judges positions of the fields pint finds; layouts whose wrapper has a sequence level belong to C19
     # (sequence levels, sibling keys holding rule lists of their own)
-    return not any(lv["seq"] or lv["sl"] for lv in c["lay"]["wrap"]["levels"])
+    return not (c["lay"]["wrap"]["mix"] or any(lv["seq"] or lv["sl"] for lv in c["lay"]["wrap"]["levels"]))
 
 
 def run(ctx, cases_override=None):
     build_vh_overlay(ctx)
     if cases_override is None:
-        cases, gstats = run_gen(ctx, jobs_for(ctx), par=6 if not ctx.thorough else 8)
+        cases, gstats = run_gen(ctx, jobs_for(ctx), par=3)
         cases = [c for c in cases if c06_usable(c)]
     else:
         cases, gstats = cases_override, []
@@ -241,7 +246,7 @@ def run(ctx, cases_override=None):
     head = json.loads(open(tpath).readline())
     if head.get("readrange") != "real":
         raise MachineryError("harness was not built with the readRange overlay")
-    j = run_judge(ctx, "LayoutTrace", tpath, "c06", slices=12 if not ctx.thorough else 14)
+    j = run_judge(ctx, "LayoutTrace", tpath, "c06", slices=6 if not ctx.thorough else 14)
     viols = []
     for cid, v in j["VIOL"]:
         c = cases[cid - 1]
